@@ -5,6 +5,9 @@ use std::collections::BTreeMap;
 use std::net::{IpAddr, Ipv4Addr, Ipv6Addr, SocketAddr};
 
 /// splitmix64 — every random choice of the harness derives from one of these.
+/// percentage of a tick that the controller sleeps (real time) before every step; 0 = off
+pub static SLOW_PCT: std::sync::atomic::AtomicU64 = std::sync::atomic::AtomicU64::new(0);
+
 #[derive(Clone)]
 pub struct Rng(pub u64);
 
